@@ -232,6 +232,11 @@ impl Fiber {
     self.state == FiberState::Complete
   }
 
+  /// Is this fiber running
+  pub fn is_running(&self) -> bool {
+    matches!(self.state, FiberState::Running | FiberState::Unwinding)
+  }
+
   /// Is this fiber pending
   pub fn is_pending(&self) -> bool {
     self.state == FiberState::Pending
